@@ -79,6 +79,9 @@ structure M where
   locals : Nat → Nat
   getFail : Bool
   setFail : Bool
+  /-- ghost: the store calls made so far, oldest first: (`true` = `Set`, `false` = `Get`; did it fail; the store cell after it) —
+  the boundaries at which the process can stop (the crash points of the model) -/
+  trace : List (Bool × Bool × Option Nat)
 
 def M.setLocal (m : M) (i v : Nat) : M := { m with locals := fun j => if j = i then v else m.locals j }
 
@@ -132,14 +135,14 @@ def execS (u : M → M × Nat) : S → M → R
   | .setFld f e, m => (m.setFld f (evalE m e), none)
   | .incFld f, m => (m.setFld f (u64add (m.fld f) 1), none)
   | .get iv ie, m =>
-    if m.getFail then ((m.setLocal iv 0).setLocal ie 2, none)
+    if m.getFail then (({ m with trace := m.trace ++ [(false, true, m.store)] }.setLocal iv 0).setLocal ie 2, none)
     else match m.store with
-      | none => ((m.setLocal iv 0).setLocal ie 1, none)
-      | some v => ((m.setLocal iv v).setLocal ie 0, none)
+      | none => (({ m with trace := m.trace ++ [(false, false, m.store)] }.setLocal iv 0).setLocal ie 1, none)
+      | some v => (({ m with trace := m.trace ++ [(false, false, m.store)] }.setLocal iv v).setLocal ie 0, none)
   | .put ib e, m => (m.setLocal ib (evalE m e), none)
   | .set ie ib, m =>
-    if m.setFail then (m.setLocal ie 2, none)
-    else ({ m with store := some (m.locals ib) }.setLocal ie 0, none)
+    if m.setFail then ({ m with trace := m.trace ++ [(true, true, m.store)] }.setLocal ie 2, none)
+    else ({ m with store := some (m.locals ib), trace := m.trace ++ [(true, false, some (m.locals ib))] }.setLocal ie 0, none)
   | .decode i iv, m => (m.setLocal i (m.locals iv), none)
   | .update ie, m =>
     let r := u { m with locals := fun _ => 0 }
